@@ -4,6 +4,8 @@ import (
 	"context"
 	"errors"
 	"fmt"
+	"os"
+	"runtime"
 	"sync"
 
 	"github.com/avos-io/goat"
@@ -19,6 +21,7 @@ type pipe struct {
 	credits int  // envelopes released for delivery (manual mode)
 	auto    bool // deliver as soon as written
 	ser     bool // serialising transport (marshal+unmarshal) vs by reference
+	nFailedReads int
 	rerr    error
 	werr    error
 	werr1   bool // fail exactly the next write
@@ -127,7 +130,14 @@ func (p *pipe) Read(ctx context.Context) (*goat.Rpc, error) {
 		p.mu.Lock()
 		if p.rerr != nil {
 			err := p.rerr
+			p.nFailedReads++
+			spin := p.nFailedReads == 20000
 			p.mu.Unlock()
+			if spin {
+				// nobody reads a failed transport twenty thousand times: a retry loop that never ends (under synctest it
+				// would keep the bubble from ever becoming idle)
+				reportSpin("Read called 20000 times on a transport whose reads fail with: " + err.Error())
+			}
 			return nil, err
 		}
 		if len(p.q) > 0 && (p.auto || p.credits > 0) {
@@ -262,4 +272,16 @@ func (t *tap) Write(ctx context.Context, r *goat.Rpc) error {
 		t.mu.Unlock()
 	}
 	return t.inner.Write(ctx, r)
+}
+
+// reportSpin ends the worker with a Wedged line: a library goroutine is spinning on the transport (livelock).
+func reportSpin(what string) {
+	buf := make([]byte, 1<<20)
+	n := runtime.Stack(buf, true)
+	fmt.Fprintf(os.Stderr, "VERIF-WEDGED (livelock)\n%s\n", buf[:n])
+	e := ev("Wedged")
+	e.X = "livelock: " + what
+	tr.emit(e)
+	tr.emit(ev("End"))
+	os.Exit(3)
 }
